@@ -247,6 +247,15 @@ impl Property for C03 {
             // scripts: run by text and by digest, loaded, looked up and flushed - the script cache is shared state that
             // every shard must see alike
             if s.chance(1, 10) { c = script_cmd(s, if c.len() >= 2 { c[1].clone() } else { b"k0".to_vec() }); }
+            // server-wide settings are state too: a limit changed at run time, read back, and whatever a data command makes
+            // of it (OBJECT ENCODING reports by thresholds) must not depend on which shard a key lives on
+            if s.chance(1, 14) {
+                let b = |x: &str| x.as_bytes().to_vec();
+                const LIMITS: &[&str] = &["list-max-listpack-size", "set-max-listpack-entries", "set-max-intset-entries", "hash-max-listpack-entries", "hash-max-listpack-value", "zset-max-listpack-entries", "zset-max-listpack-value", "proto-max-bulk-len", "maxmemory"];
+                let p = LIMITS[s.idx(LIMITS.len())];
+                let k = if c.len() >= 2 { c[1].clone() } else { b("k0") };
+                c = match s.below(4) { 0 | 1 => vec![b("CONFIG"), b("SET"), b(p), b(["0", "1", "2", "3", "8"][s.idx(5)])], 2 => vec![b("CONFIG"), b("GET"), b(p)], _ => vec![b("OBJECT"), b("ENCODING"), k] };
+            }
             let pa = [Path::Generic, Path::Fast, Path::Pooled, Path::Batch][s.idx(4)];
             let pb = [Path::Generic, Path::Fast, Path::Pooled, Path::Batch][s.idx(4)];
             let adv = if s.chance(1, 4) { [1u64, 999, 1000, 1500, 10_000, 100_000][s.idx(6)] } else { 0 };
